@@ -350,6 +350,20 @@ SplEncloses(x, r, e) ==
 \*    eps_i + F ((d + u)^n - d^n)        d = exact drop to the receiver (an integer), F = K dt A^m / L^n
 \* i.e. eps_i + F u (n = 1), eps_i + F (2 d u + u^2) (n = 2).  The Newton loop leaves |residual| <= tol;
 \* the slack is the quantisation of eps (one unit each) propagated through the same expression.
+\* An exponent close to one is not one.  The exact n = 1 case (new elevations e.expect, coefficients F, drops d)
+\* given to an eroder with n = 1 + 2^-27 and tolerance 2^-40: at the n = 1 solution the residual of its equation
+\* is F d (s^delta - 1) >= F d delta ln s with s = d / L the slope, and its derivative is at most 1 + 1.02 F, so
+\* for s >= 4 (ln s > 1.38) the solution lies at least delta F d / (1 + F) below the n = 1 solution - and lower
+\* still when the receiver's own solution is lower.  dn40 = (n = 1 solution) - (returned elevation) in units of
+\* 2^-40; the Newton tolerance and the rounding of the subtraction are worth a few units; half the bound is asked.
+SplNearOneIsNotOne(x, r, e) ==
+  \A i \in SplClean(x, r, e) :
+     (~SelfOnly(r, i) /\ Len(RecSeq(r, i)) = 1 /\ e.ncode = 2 /\ At(e.f, i)[1] >= 1) =>
+        LET j == RecSeq(r, i)[1]
+            F == At(e.f, i)[1]
+            d == At(e.expect, i) - At(e.expect, j)
+            L2 == At(r.dq, i)[1]
+        IN (d > 0 /\ d * d >= 16 * L2 /\ d < 4096 /\ F < 4096) => At(e.dn40, i) >= (8192 * F * d) \div (2 * (1 + F))
 SplEps(e, i) == (At(e.hi, i) - At(e.expect, i)) * 1048576 - At(e.eq, i)
 SplResidualSharp(x, r, e) ==
   \A i \in SplClean(x, r, e) :
